@@ -981,7 +981,7 @@ func (e *Engine) step(st *state, fr *frame, instr ssa.Instruction) {
 				e.addEvent(st, fr, &Event{Kind: EvPanicSite, Mode: "nilderef", Args: []*Val{x}}, in)
 			}
 			v := e.load(st, x, in.Type())
-			if r := addrRoot(x); r != nil && r.Op == "global" {
+			if r := addrRoot(x); r != nil && r.Op == "global" && e.moduleGlobal(r) {
 				e.addEvent(st, fr, &Event{Kind: EvLoadGlobal, Recv: x, Src: v}, in)
 			}
 			fr.env[in] = v
@@ -1243,4 +1243,9 @@ func (e *Engine) convert(st *state, x *Val, from, to types.Type) *Val {
 		x = e.contentOf(st, x)
 	}
 	return &Val{Op: "conv", Name: "convert", Args: []*Val{x}, Type: to}
+}
+
+func (e *Engine) moduleGlobal(g *Val) bool {
+	gl, ok := g.Aux.(*ssa.Global)
+	return ok && gl.Pkg != nil && strings.HasPrefix(gl.Pkg.Pkg.Path(), modulePath)
 }
